@@ -669,7 +669,8 @@ pub struct Case {
 
 const VAR_NAMES: &[&str] = &["a", "b", "i", "j", "k", "m", "t", "v", "w", "n", "cnt", "_u", "x1", "endx", "loop1"];
 const IN_NAMES: &[&str] = &["A", "B", "D", "CLK", "EN", "S0", "IN_3", "ALU-~RESET", "é"];
-const OUT_NAMES: &[&str] = &["Q", "Y", "R", "DONE", "OUT", "q2", "Flag", "Σ"];
+// `n` is also the implicit counter of `repeat`
+const OUT_NAMES: &[&str] = &["Q", "Y", "R", "DONE", "OUT", "q2", "Flag", "Σ", "n"];
 const BI_NAMES: &[&str] = &["BUS", "IO", "P", "IO2", "BU"];
 
 fn is_while_counter(v: &str) -> bool {
@@ -1196,10 +1197,16 @@ pub fn gen_case(r: &mut Prng, p: &Profile) -> Case {
         .cloned()
         .collect();
     if r.chance(1, if p.p_read >= 40 { 8 } else { 25 }) {
-        // drop a signal that is read: the constructor must fail
-        if let Some(i) = layout.iter().position(|s| reads.contains(&s.name)) {
+        // drop a signal that is read — sometimes all of them: the constructor must fail, naming what is missing
+        let all = r.chance(1, 2);
+        while let Some(i) = layout.iter().position(|s| reads.contains(&s.name)) {
             layout.remove(i);
-            tags.push("missing-read");
+            if !tags.contains(&"missing-read") {
+                tags.push("missing-read");
+            }
+            if !all {
+                break;
+            }
         }
     }
     r.shuffle(&mut layout);
